@@ -22,22 +22,75 @@ namespace C20
 open Footprint
 
 #eval IO.println s!"C20-diagnostic package-level pointer cells written through a value: {(heapHits Gen.heapFacts).map fun p => (p.1, p.2.name)}"
-#eval IO.println s!"C20-diagnostic handed-out writable cells not audited: {(handedOutWritable Gen.heapFacts).filter fun p => !knownHandedOut.contains p}"
+#eval IO.println s!"C20-diagnostic handed-out writable cells not audited: {(handedOutAudit Gen.heapFacts).filter fun p => !knownHandedOut.contains p}"
+#eval IO.println s!"C20-diagnostic mutator calls on a value the caller did not make: {Gen.errorMutatorCalls.filter fun c => c.2.2.2 != ["fresh"]}; package-level sentinel pointers handed out: {(handedOutWritable Gen.heapFacts).filter fun p => !(handedOutAudit Gen.heapFacts).contains p}"
 #eval IO.println s!"C20-diagnostic closure sites (factory data written per request): {closureSites Gen.facts}"
 
 /-! ## generic (any fact record) -/
 
-/-- what `heapHits = []` means: no foreign write has the pointee type of any package-level pointer cell -/
+/-- what `heapHits = []` means: no foreign write that may hit a package-level POINTER cell (`writeMayHit`: every write except
+    the receiver writes of tracked mutator methods that are never called on a value that may be the cell) has its pointee type -/
 theorem no_hit_of_heapHits_nil (H : HeapFacts) (h : heapHits H = []) (w : ForeignWrite) (hw : w ∈ H.writes)
-    (c : SharedCell) (hc : c ∈ H.cells) (hp : c.kind = "ptr") (ht : c.ty ≠ "") : c.ty ≠ w.ty := by
+    (c : SharedCell) (hc : c ∈ H.cells) (hp : c.kind = "ptr") (ht : c.ty ≠ "") (hm : writeMayHit H w c = true) : c.ty ≠ w.ty := by
   intro heq
   have hmem : (w.fn, Cell.global c.name w.path) ∈ heapHits H := by
     unfold heapHits
     refine List.mem_flatMap.mpr ⟨w, hw, List.mem_map.mpr ⟨c, List.mem_filter.mpr ⟨hc, ?_⟩, rfl⟩⟩
     have hne : w.ty ≠ "" := heq ▸ ht
-    simp [hp, heq, hne]
+    simp [hp, heq, hne, hm]
   rw [h] at hmem
   exact absurd hmem List.not_mem_nil
+
+/-! ### deep round 4: the refined may-alias rule (package-level sentinel errors) -/
+
+theorem originMayBe_fresh (g : String) : originMayBe g "fresh" = false := by simp [originMayBe]
+
+/-- **a receiver write of a tracked mutator method hits a package-level cell ONLY through a listed call**: if the write of
+    `WithDescription` / `WithParent` / … may hit the cell `c`, then some call of that method after package initialisation has a
+    receiver whose origin may be `c` (the cell itself, or a value the calling function did not make) -/
+theorem mutator_hit_needs_call (H : HeapFacts) (w : ForeignWrite) (c : SharedCell) (m : String)
+    (hm : H.mutatorOf w = some m) (hh : writeMayHit H w c = true) :
+    ∃ k ∈ H.mutCalls, k.2.2.1 = m ∧ ∃ o ∈ k.2.2.2, originMayBe c.name o = true := by
+  simp only [writeMayHit, hm, HeapFacts.callsOn, Bool.not_eq_true', List.isEmpty_eq_false_iff] at hh
+  obtain ⟨k, hk⟩ := List.exists_mem_of_ne_nil _ hh
+  obtain ⟨hkm, hkp⟩ := List.mem_filter.mp hk
+  simp only [Bool.and_eq_true, beq_iff_eq, List.any_eq_true] at hkp
+  exact ⟨k, hkm, hkp.1, hkp.2⟩
+
+/-- … and conversely: no such call, no hit -/
+theorem mutator_misses_without_call (H : HeapFacts) (w : ForeignWrite) (c : SharedCell) (m : String)
+    (hm : H.mutatorOf w = some m)
+    (hn : ∀ k ∈ H.mutCalls, k.2.2.1 = m → ∀ o ∈ k.2.2.2, originMayBe c.name o = false) : writeMayHit H w c = false := by
+  cases hh : writeMayHit H w c with
+  | false => rfl
+  | true =>
+    obtain ⟨k, hk, hkm, o, ho, hob⟩ := mutator_hit_needs_call H w c m hm hh
+    rw [hn k hk hkm o ho] at hob
+    exact absurd hob (by decide)
+
+/-- when every listed call has a receiver made by the calling expression / function, the mutators' receiver writes hit NO
+    package-level cell — whatever package-level `*oidc.Error` variables exist or are added later -/
+theorem fresh_calls_hit_nothing (H : HeapFacts) (hf : H.mutCalls.all (fun k => k.2.2.2 == ["fresh"]) = true)
+    (w : ForeignWrite) (c : SharedCell) (m : String) (hm : H.mutatorOf w = some m) : writeMayHit H w c = false := by
+  apply mutator_misses_without_call H w c m hm
+  intro k hk _ o ho
+  have := List.all_eq_true.mp hf k hk
+  simp only [beq_iff_eq] at this
+  rw [this] at ho
+  simp only [List.mem_singleton] at ho
+  rw [ho]
+  exact originMayBe_fresh c.name
+
+/-- the refinement only REMOVES pairs from the type-only rule of round 3 -/
+theorem heapHits_sub_byType (H : HeapFacts) (p : String × Cell) (hp : p ∈ heapHits H) : p ∈ heapHitsByType H := by
+  unfold heapHits at hp
+  unfold heapHitsByType
+  obtain ⟨w, hw, hwp⟩ := List.mem_flatMap.mp hp
+  obtain ⟨c, hc, hcp⟩ := List.mem_map.mp hwp
+  obtain ⟨hcm, hcf⟩ := List.mem_filter.mp hc
+  refine List.mem_flatMap.mpr ⟨w, hw, List.mem_map.mpr ⟨c, List.mem_filter.mpr ⟨hcm, ?_⟩, hcp⟩⟩
+  simp only [Bool.and_eq_true] at hcf ⊢
+  exact hcf.1
 
 /-- if every type-matched pair is a hidden cell of the write-site facts and the hidden cells contain no package-level
     variable, there is no type-matched pair at all (the link between the two fact lists) -/
@@ -97,20 +150,22 @@ theorem c20_no_shared_cell_reachable_from_written_value : heapHits Gen.heapFacts
 
 /-- the same, spelled out for every pair -/
 theorem c20_written_values_miss_pointer_cells (w : ForeignWrite) (hw : w ∈ Gen.foreignWrites) (c : SharedCell) (hc : c ∈ Gen.sharedCells)
-    (hp : c.kind = "ptr") (ht : c.ty ≠ "") : c.ty ≠ w.ty :=
-  no_hit_of_heapHits_nil Gen.heapFacts c20_no_shared_cell_reachable_from_written_value w hw c hc hp ht
+    (hp : c.kind = "ptr") (ht : c.ty ≠ "") (hm : writeMayHit Gen.heapFacts w c = true) : c.ty ≠ w.ty :=
+  no_hit_of_heapHits_nil Gen.heapFacts c20_no_shared_cell_reachable_from_written_value w hw c hc hp ht hm
 
 /-- factgen's expansion (type-matched pairs as `.global` write sites in `Gen.writeSites`) lists every pair that Lean
     computes from the two fact lists: the footprint theorems (`hidden_exact`, `c20_package_defaults_unchanged`) and the
     driver's prediction see exactly these writes -/
 theorem c20_heap_hits_listed : (heapHits Gen.heapFacts).all (fun h => (hidden Gen.facts).contains h) = true := by decide +kernel
 
-/-- no function of the library hands out a package-level POINTER cell (an error instance, a default object) as a result -/
+/-- no function of the library hands out a package-level POINTER cell (a default object) as a result — other than a pointer to
+    a SENTINEL type (`*oidc.Error`: `var errX = oidc.ErrY().WithDescription(…)` … `return errX`, the standard Go idiom), whose
+    objects nobody writes except through the tracked mutator methods (`c20_error_type_is_sentinel`) -/
 theorem c20_no_pointer_cell_handed_out :
-    (Gen.handsOut.filter fun h => Gen.heapFacts.kindOf h.2.2 == "ptr") = [] := by decide +kernel
+    ((handedOutAudit Gen.heapFacts).filter fun h => Gen.heapFacts.kindOf h.2 == "ptr") = [] := by decide +kernel
 
 /-- the package-level slices / maps that ARE handed out as results are exactly the audited ones … -/
-theorem c20_handed_out_exact : sameSet (dedup (handedOutWritable Gen.heapFacts)) knownHandedOut = true := by decide +kernel
+theorem c20_handed_out_exact : sameSet (dedup (handedOutAudit Gen.heapFacts)) knownHandedOut = true := by decide +kernel
 
 /-- … and no write site of the library targets any of them (nor any other package-level variable: `hidden_exact`) -/
 theorem c20_handed_out_cells_never_written :
@@ -145,6 +200,23 @@ theorem c20_error_mutators_exact :
 theorem c20_error_mutators_called_on_fresh_values :
     Gen.errorMutatorCalls.all (fun c => c.2.2.2 == ["fresh"]) = true := by decide +kernel
 
+/-- `oidc.Error` is a sentinel type: every write into an `oidc.Error` that the writer did not create is the receiver write of a tracked
+    mutator method (with `c20_handed_in_errors_never_written`: nothing is written through a parameter / errors.As target) -/
+theorem c20_error_type_is_sentinel : Gen.heapFacts.sentinelType "oidc.Error" = true := by decide +kernel
+
+/-- **package-level sentinel errors are never written after initialisation** (the refined may-alias theorem): the receiver
+    write of every tracked mutator method misses EVERY package-level cell — any `SharedCell` at all, also one that a later change adds
+    (`var ErrLogin = oidc.ErrLoginRequired().WithDescription(…)`) — because every call of such a method after package initialisation
+    is made on a value the calling expression / function made itself.  A package-level error cell is written iff a mutator is called
+    on it (`mutator_hit_needs_call`) or a field of it is assigned (a `.global` write site: `hidden_exact`). -/
+theorem c20_mutator_writes_miss_every_cell (w : ForeignWrite) (m : String) (hm : Gen.heapFacts.mutatorOf w = some m) (c : SharedCell) :
+    writeMayHit Gen.heapFacts w c = false :=
+  fresh_calls_hit_nothing Gen.heapFacts c20_error_mutators_called_on_fresh_values w c m hm
+
+/-- the three receiver writes of `c20_error_mutators_exact` ARE tracked: the statement above is about all of them -/
+theorem c20_error_mutators_tracked :
+    (Gen.foreignWrites.filter fun w => w.ty == "oidc.Error").all (fun w => (Gen.heapFacts.mutatorOf w).isSome) = true := by decide +kernel
+
 /-- **every handler factory builds its per-request data per request**: no closure returned by any function of the library
     assigns, appends to or writes an element of a variable of the function that made it (nor of a local that aliases one:
     `opts := urlOpts; opts = append(opts, …)`).  Seeded change C20-H breaks this. -/
@@ -154,6 +226,30 @@ theorem c20_factories_build_per_request : closureSites Gen.facts = [] := by deci
 theorem c20_closure_state_unchanged (prog : List Step) (m m' : Mem) (h : RunRel Gen.facts prog m m')
     (k : Nat) (o v : String) (p : List String) : m' (.captured k o v p) = m (.captured k o v p) :=
   closure_cells_of_run Gen.facts c20_factories_build_per_request prog m m' h k o v p
+
+/-- (deep round 4) named instance of `c20_package_defaults_unchanged` for the sentinel idiom: for EVERY program — any constructions,
+    any number of refused / failing requests answered with a package-level error value, on any providers, in any order — every
+    package-level cell (in particular every package-level `*oidc.Error`, whichever a later change adds) holds afterwards what it
+    held before.  It keeps holding on a tree with sentinel errors because the refined may-alias rule adds no write site for them. -/
+theorem c20_sentinel_errors_unchanged (prog : List Step) (m m' : Mem) (h : RunRel Gen.facts prog m m')
+    (c : SharedCell) (p : List String) : m' (.global c.name p) = m (.global c.name p) :=
+  c20_package_defaults_unchanged prog m m' h c.name p
+
+/-- (deep round 4) **the client-side helpers hold only read-only configuration after construction**: no method of, and no function
+    working on, a resource server (`rs.resourceServer`), a token exchanger (`tokenexchange.OAuthTokenExchange`) or a JWT profile token
+    source (`profile.jwtProfileTokenSource`) writes any field of it once the constructor has returned — no lazily initialised field
+    (token endpoint discovered on first use, signer created on demand), nothing to race on when one instance serves many goroutines.
+    The `*http.Client` they are handed is covered by `c20_supplied_objects_unchanged` (it is aliased, never written). -/
+theorem c20_client_helpers_read_only :
+    (Gen.facts.sites.filter fun s => apiPhase s &&
+      (siteTy s == "rs.resourceServer" || siteTy s == "tokenexchange.OAuthTokenExchange" || siteTy s == "profile.jwtProfileTokenSource")) = [] := by
+  decide +kernel
+
+/-- the three helper types are in the facts: constructors, option writes, the alias of the handed-in HTTP client -/
+theorem c20_client_helpers_in_footprint :
+    (["rs.resourceServer", "tokenexchange.OAuthTokenExchange", "profile.jwtProfileTokenSource"].all fun t =>
+      (Gen.facts.ctors.any fun c => c.ty == t) && (Gen.facts.sites.any fun s => siteTy s == t && s.phase == .option) &&
+      (Gen.facts.aliases.any fun a => a.ty == t && a.src == .param "client" "http.Client")) = true := by decide +kernel
 
 /-! ## non-vacuity -/
 
@@ -172,10 +268,27 @@ def heapF : HeapFacts :=
   { Gen.heapFacts with cells := { name := "op.errAuthReqScopesMissing", kind := "ptr", ty := "oidc.Error" } :: Gen.sharedCells,
                        handsOut := ("op.ValidateAuthReqScopes", 1, "op.errAuthReqScopesMissing") :: Gen.handsOut }
 
-/-- since the repair of F-C11e the error-answer functions no longer write into such a value (they complete a copy); what can still
-    write it are the mutator methods, by may-alias on the type -/
-example : ("oidc.Error.WithDescription", Cell.global "op.errAuthReqScopesMissing" ["Description"]) ∈ heapHits heapF := by decide +kernel
-example : (heapHits heapF).all (fun h => h.1 != "op.AuthRequestError" && h.1 != "op.TryErrorRedirect") = true := by decide +kernel
+/-- since the repair of F-C11e nothing writes into such a value: the error-answer functions complete a copy, and the mutator
+    methods are only ever called on fresh values — the refined rule finds NO hit, the type-only rule of round 3 did (the false alarm
+    on the retired seeds C20-F / C20-N = neutral rewrites N152 / N153) -/
+example : heapHits heapF = [] := by decide +kernel
+example : ("oidc.Error.WithDescription", Cell.global "op.errAuthReqScopesMissing" ["Description"]) ∈ heapHitsByType heapF := by decide +kernel
+example : heapF.sentinelType "oidc.Error" = true ∧ handedOutAudit heapF = handedOutAudit Gen.heapFacts ∧
+          ("op.ValidateAuthReqScopes", "op.errAuthReqScopesMissing") ∈ handedOutWritable heapF := by decide +kernel
+/-- a mutator called on the package-level value at request time (`errAuthReqScopesMissing.WithDescription(fmt.Sprintf(…))` inside the
+    handler) IS a hit — on that cell and on no other -/
+def heapFMut : HeapFacts :=
+  { heapF with cells := { name := "op.ErrOther", kind := "ptr", ty := "oidc.Error" } :: heapF.cells,
+               mutCalls := ("op.ValidateAuthReqScopes", 283, "WithDescription", ["global:op.errAuthReqScopesMissing"]) :: heapF.mutCalls }
+example : ("oidc.Error.WithDescription", Cell.global "op.errAuthReqScopesMissing" ["Description"]) ∈ heapHits heapFMut ∧
+          (heapHits heapFMut).all (fun h => h.1 == "oidc.Error.WithDescription" && h.2 == Cell.global "op.errAuthReqScopesMissing" ["Description"]) = true := by decide +kernel
+/-- a mutator called on an error the function was HANDED (`op.RequestError` calling `e.WithDescription(…)` on the error found with
+    errors.As) may hit every package-level error value -/
+def heapFParam : HeapFacts :=
+  { heapFMut with mutCalls := ("op.RequestError", 74, "WithParent", ["param:2"]) :: heapF.mutCalls }
+example : ("oidc.Error.WithParent", Cell.global "op.ErrOther" ["Parent"]) ∈ heapHits heapFParam ∧
+          ("oidc.Error.WithParent", Cell.global "op.errAuthReqScopesMissing" ["Parent"]) ∈ heapHits heapFParam ∧
+          (heapHits heapFParam).all (fun h => h.1 == "oidc.Error.WithParent") = true := by decide +kernel
 /-- the facts as they were before the repair: the two functions write State / SessionState through the error they were handed -/
 def heapFUnfixed : HeapFacts :=
   { heapF with writes :=
@@ -184,6 +297,9 @@ def heapFUnfixed : HeapFacts :=
       heapF.writes }
 example : ("op.AuthRequestError", Cell.global "op.errAuthReqScopesMissing" ["State"]) ∈ heapHits heapFUnfixed := by decide +kernel
 example : ("op.TryErrorRedirect", Cell.global "op.errAuthReqScopesMissing" ["SessionState"]) ∈ heapHits heapFUnfixed := by decide +kernel
+/-- … `oidc.Error` is then no sentinel type and the function that hands the value out is up for audit -/
+example : heapFUnfixed.sentinelType "oidc.Error" = false ∧
+          ("op.ValidateAuthReqScopes", "op.errAuthReqScopesMissing") ∈ handedOutAudit heapFUnfixed := by decide +kernel
 example : (heapF.handsOut.filter fun h => heapF.kindOf h.2.2 == "ptr") ≠ [] := by decide +kernel
 
 /-- seeded change C20-H in the facts: the returned closure appends to (an alias of) the factory's slice -/
